@@ -309,7 +309,8 @@ def judge_image(ck, r, res):
     # (the sandbox stops a write above the scratch root before the kernel sees it; a name the kernel would have
     #  refused as too long creates nothing)
     toolong = [e for e in blocked if any(len(c.encode("utf-8", "replace")) > 255 for c in str(e.get("path")).split("/"))]
-    blocked = [e for e in blocked if e not in toolong]
+    noparent = [e for e in blocked if e not in toolong and not e.get("parent_exists", True)]
+    blocked = [e for e in blocked if e not in toolong and e not in noparent]
     overw = [e for e in res["events"] if e["ev"] == "open" and e.get("write") and e.get("existed")]
     other = [e for e in res["events"] if e["ev"] != "open" and e["ev"] != "os.mkdir"]
     reads = []
@@ -335,6 +336,8 @@ def judge_image(ck, r, res):
     real_err = res["exc"]
     if toolong and real_err == "PermissionError":
         real_err = "OSError"
+    if noparent and real_err == "PermissionError":
+        real_err = "FileNotFoundError"
     if blocked:
         # the sandbox stopped the first write above the scratch root (and with it the extraction)
         same = set(created) <= pred_created and pred_above >= 1
